@@ -110,6 +110,11 @@ func probe(gamePort int, specs []string) []string {
 		}
 	}()
 	for i, sp := range specs {
+		if sp == "w" {
+			// game port + offset beyond 65535: the prober converts to uint16 (it wraps to a low, closed port)
+			ports[i] = 65536 + 7 + i
+			continue
+		}
 		if sp == "x" {
 			ports[i] = u.ClosedPort()
 			continue
@@ -352,7 +357,7 @@ func genProbe(rng *rand.Rand, emit core.Emit) {
 	for i := 0; i < n; i++ {
 		switch r := rng.Intn(10); {
 		case r == 0:
-			specs[i] = "x"
+			specs[i] = []string{"x", "x", "w"}[rng.Intn(3)]
 		case r == 1: // answers garbage
 			specs[i] = strconv.Itoa(delays[i]*40) + "/" + u.JoinDgrams([][]byte{[]byte("\\hostname\\x\\final\\")})
 		default:
